@@ -89,7 +89,48 @@ func familyDerived(r *core.Run, bounds map[string]any) string {
 	r.Parallel(len(pairs), func(ci int, l *core.Local) {
 		p := pairs[ci]
 		c := p.c
-		s := newSUTFrom(deriveConfig(p.prev, c), c)
+		// the app the configuration is taken from stays in service: building the second app must not change it
+		first := &sut{c: p.prev}
+		firstApp := fiber.New(fiberConfig(p.prev))
+		firstApp.Get("/", func(ctx fiber.Ctx) error { first.got = observe(ctx); return nil })
+		first.h = firstApp.Handler()
+		fc := firstApp.Config()
+		fc.TrustProxy = c.Trust
+		fc.TrustProxyConfig.Proxies = c.Proxies
+		fc.TrustProxyConfig.Loopback = c.Loopback
+		fc.TrustProxyConfig.Private = c.Private
+		fc.TrustProxyConfig.LinkLocal = c.LinkLocal
+		fc.ProxyHeader = c.Header
+		fc.EnableIPValidation = c.Validation
+		s := newSUTFrom(fc, c)
+		defer func() {
+			// ... judged AFTER the second app was built and used
+			req := fx.Req("GET", target)
+			for _, hh := range attack {
+				req.Header.Set(hh.K, hh.V)
+			}
+			for _, tp := range tpeers {
+				if !tp.Addr.IsValid() {
+					continue
+				}
+				w := refTrust(p.prev, tp.Addr)
+				o, po := first.call(req, tp.NA, false)
+				l.Add("evaluations", 1)
+				l.Add("evaluations_D_first_app", 1)
+				cs := map[string]any{"family": "D", "judged": "the app the Config was taken FROM, after the second app was built", "config": p.prev, "second_app_config": c,
+					"peer": tp.NA.String(), "peer_role": tp.Role, "headers": attack, "reference_trust": w.String()}
+				switch {
+				case po != nil:
+					l.Violate("accessor-panicked family=D app=config-donor", "an accessor panicked", cs, fmt.Sprint(po), nil)
+				case w == no && o.Trusted:
+					l.Violate("untrusted-peer-recognised app=config-donor-after-second-app-was-built listed-by-second-app="+fmt.Sprint(refTrust(c, tp.Addr) == yes),
+						"building a second app from this app's Config() changed THIS app: a peer outside its proxy set is trusted now", cs, o, nil)
+				case w == yes && !o.Trusted:
+					l.Violate("trusted-peer-not-recognised app=config-donor-after-second-app-was-built via="+whyKind(p.prev, tp.Addr),
+						"building a second app from this app's Config() changed THIS app: a peer inside its proxy set is no longer trusted", cs, o, nil)
+				}
+			}
+		}()
 		plainReq := fx.Req("GET", target)
 		req := fx.Req("GET", target)
 		for _, hh := range attack {
